@@ -41,6 +41,7 @@ def zoo():
         ('ConstantLiftingFn', lambda: pykoop.ConstantLiftingFn(), lf),
         ('DelayLiftingFn', lambda: pykoop.DelayLiftingFn(1, 2), lf),
         ('AnglePreprocessor', lambda: pykoop.AnglePreprocessor(angle_features=np.array([0])), lf),
+        ('AnglePreprocessor/negative index', lambda: pykoop.AnglePreprocessor(angle_features=np.array([-1, 0]), unwrap_inverse=False), lf),
         ('RbfLiftingFn/Qmc', lambda: pykoop.RbfLiftingFn(centers=pykoop.QmcCenters(n_centers=3, random_state=1, qmc_kw={'scramble': True})), lf),
         ('RbfLiftingFn/Grid', lambda: pykoop.RbfLiftingFn(rbf='thin_plate', centers=pykoop.GridCenters(2)), lf),
         ('KernelApproxLiftingFn/RFF', lambda: pykoop.KernelApproxLiftingFn(pykoop.RandomFourierKernelApprox(n_components=4, random_state=3)), lf),
@@ -407,6 +408,42 @@ def params_roundtrip():
     g = sp.get_params(deep=True)
     if g.get('p__order') != 2 or g.get('d__n_delays_input') != 3:
         bad.append(dict(what='get_params(deep=True) does not report nested step parameters'))
+    # replacing a step BY NAME, in either branch of a SplitPipeline, directly and three levels deep: get_params must show
+    # the new step, and a fit afterwards must equal a freshly constructed estimator with that step
+    rng = np.random.default_rng(11)
+    D = data(rng, nu=1)
+    for where in ('state', 'input'):
+        n += 1
+        new_step = pykoop.DelayLiftingFn(1, 1) if where == 'input' else pykoop.PolynomialLiftingFn(order=3)
+        sp = pykoop.SplitPipeline(lifting_functions_state=[('p', pykoop.PolynomialLiftingFn(order=2))],
+                                  lifting_functions_input=[('d', pykoop.DelayLiftingFn(0, 0))])
+        key = 'p' if where == 'state' else 'd'
+        sp.set_params(**{key: new_step})
+        got = dict(sp.lifting_functions_state if where == 'state' else sp.lifting_functions_input).get(key)
+        if got is not new_step or sp.get_params(deep=True).get(key) is not new_step:
+            bad.append(dict(what=f'SplitPipeline.set_params(<{where} step name>=estimator) does not replace the step '
+                                 '(get_params / the step list still show the old one)', estimator='SplitPipeline'))
+            continue
+        fresh = pykoop.SplitPipeline(
+            lifting_functions_state=[('p', new_step if where == 'state' else pykoop.PolynomialLiftingFn(order=2))],
+            lifting_functions_input=[('d', new_step if where == 'input' else pykoop.DelayLiftingFn(0, 0))])
+        sp.fit(D, n_inputs=1, episode_feature=True); fresh.fit(D, n_inputs=1, episode_feature=True)
+        dd = diff(fitted_state(sp), fitted_state(fresh), 0)
+        if dd:
+            bad.append(dict(what='a SplitPipeline whose step was replaced by name fits differently from a fresh one built with '
+                                 'that step', estimator='SplitPipeline', difference=dd))
+        # the same through a KoopmanPipeline: split__<name>=...
+        n += 1
+        kp2 = pykoop.KoopmanPipeline(lifting_functions=[('split', pykoop.SplitPipeline(
+            lifting_functions_state=[('p', pykoop.PolynomialLiftingFn(order=2))],
+            lifting_functions_input=[('d', pykoop.DelayLiftingFn(0, 0))]))], regressor=pykoop.Edmd())
+        new2 = sklearn.base.clone(new_step)
+        kp2.set_params(**{'split__' + key: new2})
+        inner = kp2.lifting_functions[0][1]
+        got2 = dict(inner.lifting_functions_state if where == 'state' else inner.lifting_functions_input).get(key)
+        if got2 is not new2:
+            bad.append(dict(what=f'KoopmanPipeline.set_params(split__<{where} step name>=estimator) does not reach the step',
+                            estimator='KoopmanPipeline'))
     return n, bad
 
 
